@@ -617,7 +617,7 @@ type symptom struct {
 	sig string
 	// match reports whether the failure shows the class and which value of
 	// the sequence to drop (-1: the failing one).
-	match func(f *rtFail) (drop int, ok bool)
+	match func(f *rtFail, c RTCase) (drop int, ok bool)
 }
 
 var conflictRE = regexp.MustCompile(`^decorator conflict enclosing context ("(?:[^"\\]|\\.)*") and decorator cast ("(?:[^"\\]|\\.)*")$`)
@@ -664,8 +664,8 @@ func notInUnionTypes(errText string) (x, u string, ok bool) {
 	}
 }
 
-func failing(match func(f *rtFail) bool) func(f *rtFail) (int, bool) {
-	return func(f *rtFail) (int, bool) { return -1, match(f) }
+func failing(match func(f *rtFail) bool) func(f *rtFail, c RTCase) (int, bool) {
+	return func(f *rtFail, _ RTCase) (int, bool) { return -1, match(f) }
 }
 
 var rtSymptoms = []symptom{
@@ -723,23 +723,6 @@ var rtSymptoms = []symptom{
 		c, ok2 := ct.(*zed.TypeNamed)
 		return ok1 && ok2 && c.Type == n && c.Name == n.Name && strings.Contains(f.text, "(="+zson.QuotedTypeName(n.Name)+")")
 	})},
-	// The analyzer converts a decorator before the value it decorates, so
-	// typedefs take effect in another order than they have in the text: a name
-	// defined inside the value is not yet visible in its decorator (`no such
-	// type name`), or a name defined in both ends up bound to the wrong one.
-	{"C02/zson/analyzer-decorator-before-value-typedef-order", func(f *rtFail) (int, bool) {
-		if f.kind == "pointer-differs" || f.kind == "count-differs" {
-			return 0, false
-		}
-		j, ok := orderSensitive(f.text)
-		if !ok || j > f.idx {
-			return 0, false
-		}
-		if f.mode == "value" {
-			return -1, true
-		}
-		return j, true
-	}},
 	// Analyzer.convertUnion was handed a value that already has the union type
 	// itself: only the double conversion in Analyzer.convertValue does that.
 	{"C02/zson/union-decorator-under-enclosing-cast-rejected", failing(func(f *rtFail) bool {
@@ -771,6 +754,40 @@ var rtSymptoms = []symptom{
 		}
 		return false
 	})},
+	// The analyzer converts a decorator before the value it decorates, so
+	// typedefs take effect in another order than they have in the text: a name
+	// defined inside the value is not yet visible in its decorator (`no such
+	// type name`), or a name bound in both ends up bound to the value's type.
+	// Recognised by reading the text in text order (readTextOrder): if that
+	// gives back what was written, the formatter is right and the reader wrong.
+	{"C02/zson/analyzer-decorator-before-value-typedef-order", func(f *rtFail, c RTCase) (int, bool) {
+		if f.kind == "pointer-differs" || f.kind == "count-differs" || f.idx >= len(c.Seq.Vals) {
+			return 0, false
+		}
+		got, _ := readTextOrder(f.text)
+		if f.mode == "value" {
+			if len(got) < 1 {
+				return 0, false
+			}
+			kind, _ := compare(c.Seq.Vals[f.idx], got[0])
+			return -1, kind == ""
+		}
+		if len(got) <= f.idx {
+			return 0, false
+		}
+		for i := 0; i <= f.idx; i++ {
+			if kind, _ := compare(c.Seq.Vals[i], got[i]); kind != "" {
+				return 0, false
+			}
+		}
+		return -1, true
+	}},
+	// Same class, for texts that readTextOrder cannot read because they also
+	// run into one of the other analyzer findings: `no such type name` although
+	// every reference follows a definition in the text.
+	{"C02/zson/analyzer-decorator-before-value-typedef-order", failing(func(f *rtFail) bool {
+		return f.kind == "parse-error" && strings.Contains(f.err, "no such type name:") && refsFollowDefs(f.text)
+	})},
 }
 
 func dropValue(c RTCase, idx int) RTCase {
@@ -799,7 +816,7 @@ func decide(c RTCase, ladder []neutraliser, symptoms []symptom, o *vt.Outcome) {
 loop:
 	for fail != nil {
 		for _, s := range symptoms {
-			if drop, ok := s.match(fail); ok {
+			if drop, ok := s.match(fail, cur); ok {
 				if !vt.IsKnown(s.sig) {
 					failf(s.sig)
 					return
